@@ -15,7 +15,7 @@ BASE = {
     "Keys": "<- c_Keys1", "KVals": "<- c_KVals2", "Names": "<- c_Names1", "Ids": "<- c_Ids2", "Vecs": "<- c_Vecs2",
     "MKeys": "<- c_MKeys1", "MVals": "<- c_MVals2", "Cfgs": "<- c_CfgsA", "Maints": "<- c_Maints1", "ALs": "<- c_ALs1",
     "Targets": "<- c_Targets", "GNodes": "<- c_Empty", "Rels": "<- c_Empty", "Ws": "<- c_Empty", "Ps": "<- c_Empty",
-    "GName": '"ix"', "CoreVacuum": "FALSE", "Seeded": "FALSE", "Imports": "FALSE", "Evolves": "FALSE", "AccSeeds": "<- c_Empty", "SeedGraph": "FALSE", "Devs": "<- c_Empty", "MaxFile": 3, "MaxCtr": 3, "MaxAcc": 1, "MaxVer": 2, "MaxOps": 5, "MaxRej": 2,
+    "GName": '"ix"', "CoreVacuum": "FALSE", "Seeded": "FALSE", "Imports": "FALSE", "Evolves": "FALSE", "Connections": "FALSE", "AccSeeds": "<- c_Empty", "SeedGraph": "FALSE", "Devs": "<- c_Empty", "MaxFile": 3, "MaxCtr": 3, "MaxAcc": 1, "MaxVer": 2, "MaxOps": 5, "MaxRej": 2,
 }
 
 GRAPH = dict(BASE, **{
@@ -68,6 +68,9 @@ AUTOLINK = dict(SEEDED, **{"ALs": "<- c_ALk", "MVals": "<- c_MValsN", "Ids": "<-
 CFGALL = dict(BASE, **{"Cfgs": "<- c_CfgsAll", "Keys": "<- c_Empty", "KVals": "<- c_Empty", "Maints": "<- c_Empty", "ALs": "<- c_Empty",
                        "MVals": "<- c_MVals1", "MaxFile": 5})
 
+# hydration (VGetConnections) with its self-repair, on the seeded graph: the seed's b->g points at a node that is no vector
+HYDRATE = dict(SEEDED_G, **{"Connections": "TRUE"})
+
 INVS = ["Inv_CleanRestart", "Inv_RestartIdempotent", "Inv_IdMaps", "Inv_ListedIsReadable", "Inv_FwdRevAgree", "Inv_OneActive", "Inv_NoEdgeToDead"]
 PROPS = ["Prop_RejectedNoChange", "Prop_MaintenanceInvisible", "Prop_ReopenIdentity", "Prop_DeleteTouchesOnlyIncident"]
 
@@ -93,8 +96,8 @@ def model_check(chk, name, consts, workers=None, timeout=900):
     return r
 
 
-def corpus(chk, name, consts, simulate=None, depth=None, workers=4, timeout=900, rejleaf=False):
-    cfg = make_cfg("SpecCorpus", consts, [], [], constraint="BoundRejLeaf" if rejleaf else "Bound", view="ViewRej" if rejleaf else "View")
+def corpus(chk, name, consts, simulate=None, depth=None, workers=4, timeout=900, rejleaf=False, view=None):
+    cfg = make_cfg("SpecCorpus", consts, [], [], constraint="BoundRejLeaf" if rejleaf else "Bound", view=view or ("ViewRej" if rejleaf else "View"))
     r = run_tlc("MC_Kektor", name + ".cfg", cfg_text=cfg, workers=workers, timeout=timeout,
                 simulate=simulate, depth=depth, seed_=vlib.seed() if simulate else None)
     if not simulate:
@@ -357,6 +360,17 @@ def run(prop, tier):
         for i, b in enumerate(b8):
             b["id"] = "sg%d" % i
         plans.append((sg, b8))
+    if prop in ("C10", "C12"):
+        # hydration: VGetConnections returns live vectors only and soft-unlinks (journaled) the targets that are none
+        hy = dict(HYDRATE, MaxOps=2 if quick else 3)
+        if not quick:
+            model_check(chk, "MC_Kektor_hydrate", hy, timeout=5400)
+        ch = corpus(chk, "MC_Kektor_hydrate_corpus", hy, workers=8, timeout=5400, view="ViewConn")
+        bh, _ = vlib.behaviours_from_corpus(ch, max_behaviours=120 if quick else 8000, rng=rng,
+                                            need=lambda ops: any(o.get("op") == "VGetConnections" for o in ops[7:]))
+        for i, b in enumerate(bh):
+            b["id"] = "hy%d" % i
+        plans.append((hy, bh))
     total = sum(len(b) for _, b in plans)
     chk.cov["distinct_nontrivial"] = total
     chk.cov["rule"] = ("behaviours = leaves of the prefix tree of TLC's corpus (BFS: one shortest history per reachable state; "
